@@ -181,7 +181,10 @@ where
     T: CBOREncodable,
 {
     fn into_envelope(self) -> Envelope {
-        Envelope::new(CBOR::from(self))
+        // A `HashSet` iterates in an arbitrary order; go through the
+        // deterministically ordered dCBOR `Set` so that equal sets always
+        // produce the same leaf (and hence the same digest).
+        Envelope::new(CBOR::from(Set::from(self)))
     }
 }
 
